@@ -34,7 +34,7 @@ def demo_files(wt):
     for l in out.splitlines():
         if l.startswith('??'):
             f = l[3:].strip()
-            if f in ('patch.diff', 'meta.txt', 'p') or f.endswith('.orig') or f.endswith('.rej') or os.path.basename(f).startswith('gofasta'):
+            if f in ('patch.diff', 'meta.txt', 'p', 'PROPERTY.txt') or f.endswith('.orig') or f.endswith('.rej') or os.path.basename(f).startswith('gofasta'):
                 continue
             files.append(f)
     return files
